@@ -38,9 +38,9 @@ Definition has_opaque (v : pyval) : bool :=
   negb (forall_atoms (fun a => match a with AOpaque _ _ _ => false | _ => true end) v).
 Definition all_picklable (v : pyval) : bool :=
   forall_atoms (fun a => match a with AOpaque _ _ p => p | _ => true end) v.
-(* the conversion can succeed: no pickling needed, or pickling allowed and possible *)
+(* the conversion can succeed: every object that needs the pickle fallback may use it and can be pickled *)
 Definition convertible (fp : bool) (v : pyval) : bool :=
-  negb (has_opaque v) || (fp && all_picklable v).
+  forall_atoms (fun a => match a with AOpaque _ _ p => fp && p | _ => true end) v.
 
 (* ---------- guards of the partial theorems (the complements are the known findings) ---------- *)
 Definition unmasked (v : pyval) : bool :=
